@@ -345,14 +345,30 @@ class Repo:
         from . import normalize
         mods = [m for m in self.modules.values() if m.name != 'setup']
         normalize.compute_mutators([m.tree for m in mods])
-        helpers = {m.name: normalize._module_helpers(m.tree, backend='.cython.' in m.name) for m in mods}
+        # (a module whose own name starts with an underscore is private as a whole: all its small functions are helpers)
+        helpers = {m.name: normalize._module_helpers(m.tree, backend='.cython.' in m.name,
+                                                     private_module=m.name.rsplit('.', 1)[-1].startswith('_')
+                                                     and not m.name.rsplit('.', 1)[-1].startswith('__'))
+                   for m in mods}
         bindings = {m.name: normalize._module_bindings(m.tree) for m in mods}
         import builtins
         for m in mods:
             imported = {}
-            for local, (mod, sym) in m.imports.items():
+            # helpers this module imports, and - transitively - the helpers of the same module that those call
+            todo = [(local, mod, sym) for local, (mod, sym) in m.imports.items()]
+            seen_h = set()
+            while todo:
+                local, mod, sym = todo.pop(0)
+                if (mod, sym) in seen_h:
+                    continue
+                seen_h.add((mod, sym))
                 if sym and mod in helpers and sym in helpers[mod] and mod != m.name:
                     h = helpers[mod][sym]
+                    for c_ in ast.walk(h):
+                        if isinstance(c_, ast.Call) and isinstance(c_.func, ast.Name) and c_.func.id in helpers[mod] \
+                                and c_.func.id != sym and c_.func.id not in m.imports \
+                                and c_.func.id not in {n_.id for n_ in ast.walk(m.tree) if isinstance(n_, ast.Name)}:
+                            todo.append((c_.func.id, mod, c_.func.id))
                     h_locals = {a.arg for a in h.args.args} | normalize.mutated_names(h, calls=False) \
                         | normalize._comp_targets(h)
                     free = {n.id for n in ast.walk(h) if isinstance(n, ast.Name)} - h_locals
@@ -367,6 +383,11 @@ class Repo:
                             continue
                         if bx is None and bindings[m.name].get(x) is None and x in C_MATH_NAMES:
                             continue            # libc functions that .pyx files cimport (dropped by the front end)
+                        if bx is not None and bx.startswith('def ') and bindings[m.name].get(x) == f'from {mod} import {x}':
+                            continue            # a function of the helper's module that this module imports from there
+                        if bx is not None and bx.startswith('def ') and x not in names_in_m:
+                            needed.append((x, mod))         # ... or does not know at all: it gets `from <module> import x`
+                            continue
                         if bx is not None and bx.startswith(('import ', 'from ')) and x not in names_in_m:
                             needed.append((x, mod))         # the importing module does not know the name at all:
                             continue                        # it gets the helper's own import (added below)
@@ -377,6 +398,8 @@ class Repo:
                             imp = next((st for st in ast.walk(self.modules[src_mod].tree)
                                         if isinstance(st, (ast.Import, ast.ImportFrom)) and
                                         any((a.asname or a.name.split('.')[0]) == x for a in st.names)), None)
+                            if imp is None and bindings[src_mod].get(x, '').startswith('def '):
+                                imp = ast.ImportFrom(module=src_mod, names=[ast.alias(name=x, asname=None)], level=0)
                             if imp is not None and not any(ast.dump(imp) == ast.dump(b) for b in m.tree.body):
                                 new_imp = ast.parse(ast.unparse(imp)).body[0]
                                 if isinstance(new_imp, ast.ImportFrom) and new_imp.level:
@@ -421,23 +444,53 @@ class Repo:
             self._index(m)
         # helpers that were inlined at every call site are dead: drop their definitions (rules then see only the code
         # that is executed, in the functions that execute it)
-        refs: Dict[str, int] = {}
-        for m in mods:
-            for n in ast.walk(m.tree):
-                if isinstance(n, ast.Name):
-                    refs[n.id] = refs.get(n.id, 0) + 1
-                elif isinstance(n, ast.Attribute):
-                    refs[n.attr] = refs.get(n.attr, 0) + 1
-                elif isinstance(n, ast.alias):
-                    refs[n.name.split('.')[-1]] = refs.get(n.name.split('.')[-1], 0) + 1
-        for m in mods:
-            dead = [st for st in m.tree.body if isinstance(st, ast.FunctionDef) and st.name in helpers.get(m.name, {})
-                    and refs.get(st.name, 0) == 0]
-            if dead:
-                m.tree.body[:] = [st for st in m.tree.body if st not in dead]
-                m.functions.clear()
-                m.imports.clear()
-                self._index(m)
+        dropped = set()
+        while True:                     # (to a fixed point: a helper that only a dropped helper called goes too)
+            refs: Dict[str, int] = {}
+            for m in mods:
+                for n in ast.walk(m.tree):
+                    if isinstance(n, ast.Name):
+                        refs[n.id] = refs.get(n.id, 0) + 1
+                    elif isinstance(n, ast.Attribute):
+                        refs[n.attr] = refs.get(n.attr, 0) + 1
+            any_dead = False
+            for m in mods:
+                dead = [st for st in m.tree.body if isinstance(st, ast.FunctionDef) and st.name in helpers.get(m.name, {})
+                        and refs.get(st.name, 0) == 0]
+                if dead:
+                    any_dead = True
+                    dropped |= {(m.name, st.name) for st in dead}
+                    m.tree.body[:] = [st for st in m.tree.body if st not in dead]
+                    m.functions.clear()
+                    m.imports.clear()
+                    self._index(m)
+            if not any_dead:
+                break
+        if dropped:
+            # imports of the dropped helpers (nothing uses them any more) go with them
+            for m in mods:
+                touched = False
+                for st in list(ast.walk(m.tree)):
+                    if isinstance(st, ast.ImportFrom) and st.module and any((st.module, a.name) in dropped or
+                                                                             ('pyspike.' + st.module, a.name) in dropped for a in st.names):
+                        keep = [a for a in st.names if (st.module, a.name) not in dropped and ('pyspike.' + st.module, a.name) not in dropped]
+                        if keep:
+                            st.names = keep
+                        else:
+                            st.names = [ast.alias(name=a.name, asname=a.asname) for a in st.names][:0] or st.names
+                            for blk in [m.tree.body] + [b for n in ast.walk(m.tree) for b in
+                                                        (getattr(n, 'body', None), getattr(n, 'orelse', None)) if isinstance(b, list)]:
+                                if st in blk:
+                                    blk.remove(st)
+                                    if not blk:
+                                        blk.append(ast.Pass())
+                                    break
+                        touched = True
+                if touched:
+                    ast.fix_missing_locations(m.tree)
+                    m.functions.clear()
+                    m.imports.clear()
+                    self._index(m)
 
     # ------------------------------------------------------------------
     def _load(self):
